@@ -113,10 +113,28 @@ def _sha(path):
         return hashlib.sha256(fh.read()).hexdigest()
 
 
-def _importer_config(n, mix, realtime_obs=True, truth_only=True):
+SWAP_STEP = 2
+SWAP_SCALE = 9.0
+
+
+def _swap_events():
+    """Sensor 20001 is removed and re-added under the SAME id with another noise covariance at step SWAP_STEP."""
+    when = scen.iso(START + timedelta(seconds=SWAP_STEP * DT))
+    _, ss = _agents(START)
+    new = [x for x in ss if x["id"] == 20001][0]
+    new["sensor"]["covariance"] = [[v * SWAP_SCALE for v in row] for row in new["sensor"]["covariance"]]
+    return [
+        {"scope": "scenario_step", "scope_instance_id": 0, "start_time": when, "event_type": "agent_removal",
+         "tasking_engine_id": 1, "agent_id": 20001, "agent_type": "sensor"},
+        {"scope": "scenario_step", "scope_instance_id": 0, "start_time": when, "event_type": "sensor_addition",
+         "tasking_engine_id": 1, "sensor_agent": new},
+    ]
+
+
+def _importer_config(n, mix, realtime_obs=True, truth_only=True, events=None):
     tg, ss = _agents(START)
     tg = [t for t in tg if t["id"] in TARGETS]
-    cfg = scen.config(START, n + 1, [scen.engine(1, tg, ss)], physics=DT, seed=3, truth_only=truth_only,
+    cfg = scen.config(START, n + 1, [scen.engine(1, tg, ss)], physics=DT, seed=3, truth_only=truth_only, events=events,
                       propagation={"target_realtime_propagation": mix not in ("targets", "both"),
                                    "sensor_realtime_propagation": mix not in ("sensors", "both")},
                       observation={"background": True, "realtime_observation": realtime_obs})
@@ -151,6 +169,9 @@ def items(tier, seed):
     # stored observations must also reach the filter when realtime observation is ON (they join the step's own)
     out.append(("obs_rt", "none", n, ["exact"]))
     out.append(("obs_rt", "targets", n, ["plus1"]))
+    # a sensor id re-used by another sensor during the run: stored observations carry the CURRENT sensor's noise model
+    out.append(("obs_swap", "none", n, ["exact"]))
+    out.append(("obs_swap", "targets", n, ["plus1"]))
     return out
 
 
@@ -270,8 +291,11 @@ def _run_obs(res, item, tmp):
         n_obs_total = sum(len(v) for v in obs.values())
         sha0, dump0 = _sha(path), _logical_dump(path)
         realtime = item[0] == "obs_rt"
-        cfg = _importer_config(n, mix, realtime_obs=realtime, truth_only=False)
-        case = {"mix": mix, "db": name, "steps": n, "stored_observations": n_obs_total, "realtime_observation": realtime}
+        swap = item[0] == "obs_swap"
+        cfg = _importer_config(n, mix, realtime_obs=realtime, truth_only=False, events=_swap_events() if swap else None)
+        case = {"mix": mix, "db": name, "steps": n, "stored_observations": n_obs_total, "realtime_observation": realtime,
+                "sensor_20001_swapped_at_step": SWAP_STEP if swap else None}
+        configured_r = {x["id"]: np.array(x["sensor"]["covariance"], dtype=float) for x in _agents(START)[1]}
         sc = scen.build(cfg, importer_db_path=f"sqlite:///{path}")
         err = None
         for k in range(1, n + 1):
@@ -287,6 +311,23 @@ def _run_obs(res, item, tmp):
                 if fname.endswith("asyncUpdateEstimate"):
                     (sub,), _kw = pickle.loads(arg_bytes)
                     est = fakeray.get(sub.estimate_agent)
+                    # the noise model attached to each observation handed to the filter = the one configured for the
+                    # sensor that holds this id NOW (after the swap: the re-added sensor's)
+                    for o in sub.successful_obs:
+                        want_r = configured_r[o.sensor_id] * (SWAP_SCALE if swap and o.sensor_id == 20001 and k >= SWAP_STEP else 1.0)
+                        got_r = np.array(o.measurement.r_matrix, dtype=float)
+                        ok_r = got_r.shape == want_r.shape and np.allclose(got_r, want_r, rtol=1e-12, atol=0.0)
+                        res.case(
+                            "obs/noise_model_of_current_sensor",
+                            {**case, "step": k, "target": est.simulation_id, "sensor": o.sensor_id},
+                            ok_r,
+                            nontrivial=swap and o.sensor_id == 20001 and k >= SWAP_STEP,
+                            key=f"{item[0]}|{mix}|{name}|{k}|{est.simulation_id}|{o.sensor_id}",
+                            signature="C19/obs/noise_model/stale" if swap else "C19/obs/noise_model/wrong",
+                            observed=np.diag(got_r).tolist(),
+                            expected=np.diag(want_r).tolist(),
+                            item=item,
+                        )
                     subs[est.simulation_id] = sorted(
                         (o.sensor_id, float(o.julian_date), o.azimuth_rad, o.elevation_rad, o.range_km, o.range_rate_km_p_sec)
                         for o in sub.successful_obs
@@ -362,7 +403,7 @@ def run_item(item):
     try:
         if item[0] == "ephem":
             _run_ephem(res, item, tmp)
-        elif item[0] in ("obs", "obs_rt"):
+        elif item[0] in ("obs", "obs_rt", "obs_swap"):
             _run_obs(res, item, tmp)
             _check_write_api(res, tmp)
         elif item[0] == "api":
